@@ -26,7 +26,8 @@ struct Acc {
     v2_commit_ok: u64,
     decoded_nonwf: u64,
     findings: Vec<Finding>,
-    dropped: u64,
+    /// per signature: cases beyond the ones kept in `findings`
+    more: BTreeMap<String, u64>,
 }
 
 fn kind_idx(k: MutKind) -> usize {
@@ -116,10 +117,10 @@ fn judge(e: &TypeEntry, base: &Base, kind: MutKind, b: &[u8], p: &Probe, acc: &m
         acc.k[ki][0] += 1;
     }
     for (s, d) in bad {
-        if acc.findings.len() < 24 {
+        if acc.findings.iter().filter(|f| f.sig.ends_with(s)).count() < 3 {
             acc.findings.push(Finding { sig: format!("{PROP}/{s}"), case: case_of(e, base, kind, b), detail: format!("type {} {} of {}: {d}; bytes {}", e.name, kind.name(), base.origin, if b.len() <= 200 { hex::encode(b) } else { format!("{}.. ({} bytes)", hex::encode(&b[..200]), b.len()) }) });
         } else {
-            acc.dropped += 1;
+            *acc.more.entry(format!("{PROP}/{s}")).or_insert(0) += 1;
         }
     }
 }
@@ -150,6 +151,7 @@ fn run(rep: &Report) {
         }
     }
 
+    let t0 = std::time::Instant::now();
     // ---- values
     let sets: Vec<ValueSet> = reg.par_iter().map(|e| (e.values)(&vcfg)).collect();
     let mut per_type = serde_json::Map::new();
@@ -182,6 +184,7 @@ fn run(rep: &Report) {
         }
     }
 
+    eprintln!("C13 timing: values {:.1}s", t0.elapsed().as_secs_f64());
     // ---- bases
     let mut bases: Vec<Base> = Vec::new();
     let mut capped_types = Vec::new();
@@ -202,6 +205,7 @@ fn run(rep: &Report) {
     rep.extra("types_with_more_distinct_lengths_than_swept", json!(capped_types));
     bases.sort_by(|a, b| b.bytes.len().cmp(&a.bytes.len()).then(a.type_idx.cmp(&b.type_idx)).then(a.bytes.cmp(&b.bytes)));
 
+    eprintln!("C13 timing: +bases {:.1}s ({} bases)", t0.elapsed().as_secs_f64(), bases.len());
     // ---- bytes
     let accs: Vec<(usize, Acc)> = bases
         .par_iter()
@@ -222,6 +226,7 @@ fn run(rep: &Report) {
             (base.type_idx, acc)
         })
         .collect();
+    eprintln!("C13 timing: +bytes {:.1}s", t0.elapsed().as_secs_f64());
     let mut per_type_probes: BTreeMap<usize, (u64, u64)> = BTreeMap::new();
     let mut tot = Acc::default();
     for (ti, a) in accs {
@@ -237,9 +242,17 @@ fn run(rep: &Report) {
         tot.trusted_only_noncanonical += a.trusted_only_noncanonical;
         tot.v2_commit_ok += a.v2_commit_ok;
         tot.decoded_nonwf += a.decoded_nonwf;
-        tot.dropped += a.dropped;
+        for (sig, n) in a.more {
+            *tot.more.entry(sig).or_insert(0) += n;
+        }
         for f in a.findings {
             rep.violation(&f.sig, f.case, f.detail);
+        }
+    }
+    // cases beyond the three kept per base only count
+    for (sig, n) in &tot.more {
+        for _ in 0..*n {
+            rep.violation(sig, Value::Null, String::new());
         }
     }
     for ki in 0..6 {
@@ -257,7 +270,6 @@ fn run(rep: &Report) {
     rep.extra("trusted_only_accepts_that_reencode_differently", json!(tot.trusted_only_noncanonical));
     rep.extra("accepted_byte_strings_with_valid_v2_proof_hash_equals_commitment_form", json!(tot.v2_commit_ok));
     rep.extra("decoded_values_not_wellformed", json!(tot.decoded_nonwf));
-    rep.extra("byte_findings_not_listed", json!(tot.dropped));
     rep.sample(json!({"type": "Option<u32>", "base": "0100000000", "mutant": "sub pos 0 := 02", "expect": "rejected by both decoders; if accepted, re-encoding must give 0200000000"}));
 
     // ---- registry self check
